@@ -1973,6 +1973,8 @@ class Recipe:
         if initial_contents:
             if not isinstance(initial_contents, Iterable):
                 raise TypeError("Initial contents must be iterable.")
+            # the entries are checked here and used again when the recipe is baked: keep them, not a one-shot iterator
+            initial_contents = list(initial_contents)
             if not all(isinstance(elem, tuple) and len(elem) == 2 for elem in initial_contents):
                 raise TypeError("Elements of initial_contents must be of the form (Substance, quantity.)")
             for substance, quantity in initial_contents:
